@@ -8,7 +8,7 @@ ASSUMPTIONS = conn.COMMON_ASSUMPTIONS
 
 
 def targets(eng):
-    return conn.targets_for(eng, ["lemma:step", "_set_connection_state", "_cleanup", "report_fatal_error", "force_disconnect", "send_messages", "process_packet",
+    return conn.targets_for(eng, ["__init__", "lemma:step", "_set_connection_state", "_cleanup", "report_fatal_error", "force_disconnect", "send_messages", "process_packet",
                                   "_handle_disconnect_request_internal", "_async_send_keep_alive", "_async_pong_not_received",
                                   "_connect_resolve_host", "_connect_socket_connect", "_connect_init_frame_helper", "start_connection", "finish_connection", "disconnect",
                                   "send_messages_await_response_complex"], ["C05"])
